@@ -95,6 +95,8 @@ pub open spec fn storage_rtime(d: Seq<u8>) -> int {
     le32(d[4], d[5], d[6], d[7]) * 1_000_000 + le32(d[8], d[9], d[10], d[11])
 }
 // total oracle of the storage-header parser (incl. the next-marker plausibility heuristic)
+// opaque: callers such as DltMessageIterator::next only need what the lemmas say about it (keeps their SMT queries small and stable)
+#[verifier::opaque]
 pub open spec fn spec_parse_storage(d: Seq<u8>, index: int) -> SParse {
     if d.len() < 20 { SParse::NotEnough }
     else if !sh_pat(d, 0) { SParse::Invalid }
@@ -112,6 +114,7 @@ pub open spec fn spec_parse_storage(d: Seq<u8>, index: int) -> SParse {
 }
 pub open spec fn serial_ecu() -> Seq<u8> { seq![0x44u8, 0x4cu8, 0x53u8, 0u8] }
 pub open spec fn serial_rtime() -> int { 1671408000int * 1_000_000int }
+#[verifier::opaque]
 pub open spec fn spec_parse_serial(d: Seq<u8>, index: int) -> SParse {
     if d.len() < 8 { SParse::NotEnough }
     else if !ser_pat(d, 0) { SParse::Invalid }
@@ -360,8 +363,10 @@ pub open spec fn parse_agrees(res: Result<(usize, DltMessage), Error>, o: SParse
 //@|        res is Ok ==> 20 <= res->Ok_0.0 <= data@.len(), // O:parse_storage.consumed
 //@   hint start
 //@|    broadcast use lemma_sh_pat_suffix;
+//@|    reveal(spec_parse_storage);
 //@   hint loopstart 1
 //@|    broadcast use lemma_sh_pat_suffix;
+//@|    reveal(spec_parse_storage);
 //@   loop 1
 //@|    invariant
 //@|        to_consume <= data@.len(),
@@ -395,8 +400,10 @@ pub open spec fn parse_agrees(res: Result<(usize, DltMessage), Error>, o: SParse
 //@|        res is Ok ==> 8 <= res->Ok_0.0 <= data@.len(), // O:parse_serial.consumed
 //@   hint start
 //@|    broadcast use lemma_ser_pat_suffix;
+//@|    reveal(spec_parse_serial);
 //@   hint loopstart 1
 //@|    broadcast use lemma_ser_pat_suffix;
+//@|    reveal(spec_parse_serial);
 //@   loop 1
 //@|    invariant
 //@|        to_consume <= data@.len(),
